@@ -176,6 +176,13 @@ def gen_cases(tier, seed):
                 if tier == "quick" and setup not in ("bomd_batch", "fssh") and name.startswith("zero-in-"):
                     continue
                 buckets.setdefault((setup, N), []).append({"name": name, "cad": tup, "resume": None})
+    # --- thorough: random fill-up over the whole range 0..N+3 (values outside the covering-array lattice)
+    if tier == "thorough":
+        for setup in setups[:4]:
+            for N in Ns[:2]:
+                for j in range(12):
+                    tup = {s: int(g.integers(0, N + 4)) for s in STREAMS}
+                    buckets.setdefault((setup, N), []).append({"name": "rnd%02d" % j, "cad": tup, "resume": None})
     # --- resumed variants: tuples with a checkpoint cadence in 1..N-1 are also hard-killed once after a step
     #     that is not a checkpoint step (when possible) and resumed
     for (setup, N), lst in sorted(buckets.items()):
@@ -333,7 +340,8 @@ def check_run(case, tup, cfg, ref, d, tag, mon, margins, resumed_from=None, stdo
             mon["h5_streams_checked"] += 1
             mon["h5_rows_compared"] += nrows
             mon["h5_streams_bitwise_equal"] += int(bitwise and not pr)
-            upd("h5_value_vs_reference", worst)
+            if not any(p["what"] == "value" for p in pr):   # a violating ratio is a witness, not a margin
+                upd("h5_value_vs_reference", worst)
             for p in pr:
                 p.update(kind="h5", mol=mol, cadence=c)
             probs += pr
@@ -463,18 +471,41 @@ def run_case(case):
         rcfg = _cfg(case, ref_cad, os.path.join(d, "ref"), molid=list(range(len(case["mols"]))))
         r = mdio.fork_child({"action": "run", "cfg": rcfg, "events": d + "/ref.ev", "stdout": d + "/ref.out",
                              "log_calls": False}, timeout=600)
+        ref_tuple = {"name": "all-1-reference", "cad": ref_cad, "resume": None}
+        if r["timed_out"]:
+            return {"inconclusive": "watchdog: reference run"}
         if r["code"] != 0:
+            # the cadence-1 run is itself a member of the workload: an exception raised by the repository on it is
+            # an observation, not a harness problem
             err = [e for e in mdio.read_events(d + "/ref.ev") if e.get("ev") == "error"]
-            return {"inconclusive": "reference run failed: %r %s" % (r, err[:1])}
+            if not err:
+                return {"inconclusive": "reference child died without a report: %r" % (r,)}
+            return {"nontrivial": True, "monitors": mon, "violations": [{
+                "clause": "run-raised", "mech": None,
+                "detail": {"tuple": ref_tuple, "engine": case["engine"], "mols": case["mols"], "N": N,
+                           "error": err[0]["type"] + ": " + err[0]["msg"], "tb": err[0]["tb"][-800:]}}]}
         mon["reference_runs"] += 1
         ref = {"h5": {}, "atoms": {}}
+        bad_ref = []
         for mol in range(len(case["mols"])):
-            got = mdio.read_h5(rcfg["prefix"] + ".%d.h5" % mol)
+            try:
+                got = mdio.read_h5(rcfg["prefix"] + ".%d.h5" % mol)
+            except OSError as exc:
+                bad_ref.append({"kind": "h5", "what": "unreadable", "mol": mol, "error": str(exc)[:200]})
+                continue
             ref["h5"][mol] = mdio.h5_streams(got["datasets"])
             ref["atoms"][mol] = got["datasets"]["atoms"]
-            for s in ("data", "coordinates", "velocities", "forces"):
-                if [int(x) for x in ref["h5"][mol][s]["steps"]] != list(range(N + 1)):
-                    return {"inconclusive": "cadence-1 reference run is itself incomplete in stream %s" % s}
+            need = ("data", "coordinates", "velocities", "forces") + (("nonadiabatic",) if case["engine"] == "fssh" else ())
+            for s in need:
+                obs_steps = [int(x) for x in ref["h5"][mol][s]["steps"]] if s in ref["h5"][mol] else None
+                if obs_steps != list(range(N + 1)):
+                    bad_ref.append({"kind": "h5", "what": "steps", "stream": s, "mol": mol, "observed": obs_steps,
+                                    "expected": list(range(N + 1))})
+        if bad_ref:
+            return {"nontrivial": True, "monitors": mon, "violations": [{
+                "clause": "h5-stream-steps", "mech": None,
+                "detail": {"tuple": "all-1-reference", "cadences": ref_cad, "engine": case["engine"],
+                           "mols": case["mols"], "N": N, "problems": bad_ref[:8]}}]}
         # ---- the tuples
         for ti, tup in enumerate(case["tuples"]):
             tag = "t%02d" % ti
@@ -497,6 +528,10 @@ def run_case(case):
                 if not info.get("exists"):
                     obs["tuples"][tup["name"]] = "no checkpoint on disk at the kill; skipped"
                     continue
+                if not info.get("loadable"):
+                    viol.append({"clause": "checkpoint-unloadable-after-kill", "mech": None,
+                                 "detail": {"tuple": tup, "engine": case["engine"], "N": N, "inspect": info}})
+                    continue
                 resumed_from = info.get("step_done")
                 evp, outp = os.path.join(d, tag + ".ev2"), os.path.join(d, tag + ".out2")
                 job = {"action": "resume", "cfg": cfg, "events": evp, "stdout": outp}
@@ -507,7 +542,7 @@ def run_case(case):
                 return {"inconclusive": "watchdog inside case: tuple %s" % tup["name"], "monitors": mon}
             if r["code"] != 0:
                 err = [e for e in events if e.get("ev") == "error"]
-                viol.append({"clause": "run-raised" if not resumed_from else "resume-raised", "mech": None,
+                viol.append({"clause": "run-raised" if resumed_from is None else "resume-raised", "mech": None,
                              "detail": {"tuple": tup, "engine": case["engine"], "N": N, "exit": r["code"],
                                         "error": (err[0]["type"] + ": " + err[0]["msg"]) if err else None,
                                         "tb": err[0]["tb"][-800:] if err else None}})
